@@ -8,10 +8,9 @@
      X  second argument; the strata are the distinct values of X ("target values" of the property text);
      Y  first argument (the feature whose classes are counted inside each stratum);
      r  the EXACT rational value of the float32 argument (a dyadic rational num/2^k, passed as a [Q]).
-        Remark (not a Coq theorem, no Flocq here): for n < 2^29 the code's float computation
-        int(float32 * int64) is exact — numba promotes to float64, the product of a 24-bit significand and a
-        29-bit integer has < 53 bits — and int(a / b) on integers a, b < 2^53 equals floor(a / b); so
-        floor(floor(r*n) / #values) below is what the code computes, for 0 <= r.
+        For n < 2^29 the code's float computations int(float32 * int64) (binary64 product, truncation) and
+        int(a / b) (binary64 division, truncation) equal the exact floors used below: proved with Flocq in
+        MI/SubFloat.v (C04_float_product_exact, C04_float_quotient_floor, C04_float_quota).
      c  cardinality_correction.
    Values are [Z] (codes >= 0 in every call the harness makes; the transcription of numba_unique below is
    sort + count and agrees with the container-based code exactly on codes >= 0), positions are [nat].
